@@ -197,7 +197,12 @@ def _frames_core(case):
         else:
             got = np.array([[float(df.iloc[i, j]) for j in range(len(cols))] for i in range(len(idx))]).reshape(pre.A.shape)
             if not np.array_equal(got, pre.A):
-                fails.append(('to_dataframe/cells', pre.A.tolist(), got.tolist()))
+                nan_for_zero = np.isnan(got) & (pre.A == 0)
+                if not case['dense'] and np.array_equal(np.where(nan_for_zero, 0.0, got), pre.A):
+                    # every mismatch is an unstored zero cell shown as NaN (fill value of the pandas sparse dtype)
+                    fails.append(('to_dataframe/sparse-zero-cells-read-as-zero', pre.A.tolist(), got.tolist()))
+                else:
+                    fails.append(('to_dataframe/cells', pre.A.tolist(), got.tolist()))
     elif fn == 'metadata_to_dataframe':
         axis = case['axis']
         st, df = vu.call_f(lambda: t.metadata_to_dataframe(axis))
